@@ -239,4 +239,8 @@ func checkC01(c *Check) {
 		c.mustPass(wpg, "O-C01.5", "wrapper: raw signature present", "the wrapper's Verify returns content", ok, A("-Empty(recv.Raw)"))
 		c.mustPass(wpg, "O-C01.5", "wrapper: inner Verify succeeded", "the wrapper's Verify returns content", ok, A("+IsNil((ncg/signature.Envelope).Verify(recv.Envelope)#1)"))
 	}
+	// faithful decoding of the protected header: exactly the specification
+	// headers are consumed as such, every other signed header surfaces as an
+	// extended attribute with its own value (O-C13.1-3)
+	c.floor("protected-header decoding rules (shared with C13)", 6, shareRules(c, checkC13, []string{"O-C13.1", "O-C13.2", "O-C13.3"}, "O-C01.6", "decoding: "))
 }
